@@ -158,6 +158,10 @@ def op2r(ctx):
         for e in oks:
             fs = ctx.facts_of(ev, e)
             ok = ok and s_ok is not None and c_ok is not None and continues(fs, s_ok) and continues(fs, c_ok)
+    elif len(san) == 1 and not cc and oks:
+        # the capacity comparison made without check_capacity (a helper that takes the precomputed layout): Ok lies behind `prefix <= mapped length`
+        s_ok = success_fact(res, san[0])
+        ok = s_ok is not None and all(continues(ctx.facts_of(ev, e), s_ok) and prefix_fits_fact(set(canon(f) for f in ctx.facts_of(ev, e))) for e in oks)
     yield Ob(key_of("C09-Op2r", b.path, "validated"), ok, "Ok(Memory) only after both validations succeeded", b.loc())
     # the expected freelist handed to the validator is None (kind taken from the file) and the stored kind is what Memory gets
     if san:
